@@ -49,7 +49,10 @@ def _run_case(prop, case, slot):
             if s.count(e["old"]) != 1:
                 res["status"] = "not-applicable (anchor text of the scripted edit not found exactly once)"
                 return res
-            open(p, "w").write(s.replace(e["old"], e["new"]))
+            s = s.replace(e["old"], e["new"])
+            for o2, n2 in e.get("more", []):
+                s = s.replace(o2, n2)
+            open(p, "w").write(s)
         env = dict(os.environ)
         env["LR_REPO"] = scratch
         env["LR_TARGET_SLOT"] = "-st%d" % slot
